@@ -276,6 +276,87 @@ def run_sequence(ops, real_crash=False):
         shutil.rmtree(d, ignore_errors=True)
 
 
+def run_setup_crashes(real_crash):
+    """Crash points inside the very first open of a new file: Journaler(path) + creation of session s1.
+    Every one of them must leave a file that opens as a usable journal: no sessions yet, or s1 at (1, 1)."""
+    from asyncfix import Journaler
+    from asyncfix.message import MessageDirection
+
+    d = tempfile.mkdtemp(prefix="vf8_", dir=("/dev/shm" if os.path.isdir("/dev/shm") else None))
+    n_exec = 0
+    ops = [("setup",)]
+    try:
+        path0 = os.path.join(d, "live.db")
+        steps = sqlproxy.Steps()
+        snaps = {}
+
+        def snap(tag):
+            dst = os.path.join(d, f"snap_{tag}.db")
+            if os.path.exists(path0):
+                shutil.copyfile(path0, dst)
+                if os.path.exists(path0 + "-journal"):
+                    shutil.copyfile(path0 + "-journal", dst + "-journal")
+            snaps[tag] = dst
+
+        steps.before = lambda n, kind, sql: snap(n)
+        sqlproxy.install(steps)
+        try:
+            j = execute(path0, [], steps, [])
+            steps.before = None
+            total = steps.n
+            snap(total)
+            del j
+            import gc
+            gc.collect()
+        finally:
+            steps.before = None
+            sqlproxy.uninstall()
+        empty = {"sessions": {}, "rows": {}}
+        full = {"sessions": {"s1": (1, 1)}, "rows": {}}
+        for k in range(0, total + 1):
+            if real_crash:
+                path = os.path.join(d, f"real{k}.db")
+                pid = os.fork()
+                if pid == 0:
+                    try:
+                        st2 = sqlproxy.Steps()
+
+                        def b2(n, kind, sql, k=k):
+                            if n >= k:
+                                os._exit(0)
+                        st2.before = b2
+                        sqlproxy.install(st2)
+                        execute(path, [], st2, [])
+                    finally:
+                        os._exit(0)
+                os.waitpid(pid, 0)
+            else:
+                path = snaps.get(k) or os.path.join(d, f"none{k}.db")
+            n_exec += 1
+            try:
+                obs = observe(path)
+                ok = same(obs, full) or (k < total and same(obs, empty))
+                if ok:
+                    # usable: the application can start over on this file
+                    j = Journaler(path)
+                    ses = j.create_or_load(*comp("s1"))
+                    j.persist_msg(payload(ses.next_num_out, "after"), ses, MessageDirection.OUTBOUND)
+                    got = j.create_or_load(*comp("s1"))
+                    if (got.next_num_in, got.next_num_out) != (1, 2):
+                        ok = False
+                        obs = dict(obs, after_restart=(got.next_num_in, got.next_num_out))
+                    del j
+            except Exception as e:  # reopening must work
+                return ("viol", mkv("reopen_failed", f"{type(e).__name__}:during_first_open", "reopening the file yields a usable journal", ops, k, "crash",
+                                    {"error": repr(e), "real_crash": real_crash}), n_exec)
+            if not ok:
+                return ("viol", mkv("state_not_a_boundary", "first_open:crash", "the stored state corresponds to a boundary between completed operations",
+                                    ops, k, "crash", {"observed": obs, "real_crash": real_crash}), n_exec)
+        return ("ok", total, n_exec)
+    finally:
+        shutil.rmtree(d, ignore_errors=True)
+
+
 def same(obs, st):
     if obs.get("mismatch_recover"):
         return False
@@ -312,6 +393,8 @@ def mkv(what, cause, clause, ops, k, mode, det):
 
 def _work(item):
     ops, real = item
+    if ops == [("setup",)]:
+        return run_setup_crashes(real)
     return run_sequence(ops, real_crash=real)
 
 
@@ -371,6 +454,7 @@ def run(ctx):
         three = [ops for ops in seqs if len(ops) == 3]
         real += three[:: max(1, len(three) // 400)]
     items += [(ops, True) for ops in real]
+    items += [([("setup",)], False), ([("setup",)], True)]
     ctx.bounds["real_crash_sequences"] = len(real)
     res = ctx.pmap(_work, items, chunk=8)
     nseq = nexec = nsteps = nt = 0
@@ -403,7 +487,7 @@ def replay(ctx, rep):
     ops = [tuple(o) for o in rep["ops"]]
     out = []
     for real in (False, True):
-        r = run_sequence(ops, real_crash=real)
+        r = run_setup_crashes(real) if ops == [("setup",)] else run_sequence(ops, real_crash=real)
         if r[0] == "viol":
             out.append(r[1])
             break
